@@ -961,3 +961,143 @@ func runMidicatListenTo(c *mon.Ctx, r *mon.Rand, idx int64) {
 		c.Count("mc_listento_deliveries", 1)
 	}
 }
+
+// runBurstBehindSlowCallback: while one listener callback stays busy for two seconds, eight senders
+// put 20 000 messages on the port (more than any bounded hand-over queue of a few thousand entries
+// holds). Nothing is stopped or closed: after the callback has returned, every message whose Send
+// returned before the observed sentinel must have arrived exactly once.
+func runBurstBehindSlowCallback(c *mon.Ctx) {
+	dir := filepath.Join(c.Dir, fmt.Sprintf("mc-burst-%d", c.Shard))
+	os.MkdirAll(dir, 0o755)
+	defer os.RemoveAll(dir)
+	os.Setenv("VERIF_MC_DIR", dir)
+	os.Setenv("VERIF_MC_DELAY_US", "0")
+	drv, err := midicatdrv.New()
+	if err != nil {
+		c.Inconclusive("midicatdrv.New failed: " + err.Error())
+		return
+	}
+	ins, _ := drv.Ins()
+	outs, _ := drv.Outs()
+	h := &hist{}
+	const nSenders, perSender = 8, 2500
+	desc := map[string]any{"history": fmt.Sprintf("Listen; one callback sleeps 2 s; meanwhile %d senders send %d messages each; sentinel; nothing stopped in flight", nSenders, perSender)}
+	if ins[0].Open() != nil || outs[0].Open() != nil {
+		c.Violation("mc:open", "cannot open ports against the stand-in helper", desc, nil, nil)
+		return
+	}
+	defer ins[0].Close()
+	defer outs[0].Close()
+	var mu sync.Mutex
+	seen := map[int]int{}
+	live, done := make(chan struct{}, 1), make(chan struct{}, 1)
+	slowID := msgID(senderProbe, 1_000_000)
+	var stop func()
+	if !guarded(c, h, "Listen", func() {
+		stop, err = ins[0].Listen(func(msg []byte, ts int32) {
+			id, ok := decMsg(msg)
+			if !ok {
+				return
+			}
+			switch {
+			case id == slowID:
+				time.Sleep(2 * time.Second)
+			case id>>28 == senderProbe && id&(1<<28-1) >= 2_000_000:
+				select {
+				case done <- struct{}{}:
+				default:
+				}
+			case id>>28 == senderProbe:
+				select {
+				case live <- struct{}{}:
+				default:
+				}
+			}
+			mu.Lock()
+			seen[id]++
+			mu.Unlock()
+		}, drivers.ListenConfig{})
+	}) || err != nil {
+		if err != nil {
+			c.Violation("mc:listen", "Listen failed: "+err.Error(), desc, nil, nil)
+		}
+		return
+	}
+	defer func() { guarded(c, h, "stop", stop) }()
+	deadline := time.Now().Add(waitObserve)
+	isLive := false
+	for k := 1; !isLive && time.Now().Before(deadline); k++ {
+		outs[0].Send(encMsg(senderProbe, k))
+		select {
+		case <-live:
+			isLive = true
+		case <-time.After(2 * time.Millisecond):
+		}
+	}
+	if !isLive {
+		c.Inconclusive("burst history: probe not observed within the wait limit")
+		return
+	}
+	if e := outs[0].Send(encMsg(senderProbe, 1_000_000)); e != nil {
+		c.Violation("mc:send-error", "Send failed: "+e.Error(), desc, nil, e.Error())
+		return
+	}
+	var wg sync.WaitGroup
+	var sendErr atomic.Value
+	for s := 0; s < nSenders; s++ {
+		wg.Add(1)
+		go func(s int) {
+			defer wg.Done()
+			for k := 1; k <= perSender; k++ {
+				if e := outs[0].Send(encMsg(s, k)); e != nil {
+					sendErr.Store(e)
+					return
+				}
+			}
+		}(s)
+	}
+	if !guarded(c, h, "senders", wg.Wait) {
+		return
+	}
+	if e := sendErr.Load(); e != nil {
+		c.Violation("mc:send-error", fmt.Sprintf("Send on an open port failed: %v", e), desc, nil, fmt.Sprint(e))
+		return
+	}
+	// sentinels (each sent after all the messages) until one of them is observed
+	observed := false
+	deadline = time.Now().Add(2 * waitObserve)
+	for k := 0; !observed && time.Now().Before(deadline); k++ {
+		outs[0].Send(encMsg(senderProbe, 2_000_000+k))
+		select {
+		case <-done:
+			observed = true
+		case <-time.After(50 * time.Millisecond):
+		}
+	}
+	if !observed {
+		c.Inconclusive("burst history: no sentinel observed within the wait limit")
+		return
+	}
+	c.Count("mc_bursts_behind_slow_callback", 1)
+	mu.Lock()
+	defer mu.Unlock()
+	missing, dup := 0, 0
+	first := -1
+	for s := 0; s < nSenders; s++ {
+		for k := 1; k <= perSender; k++ {
+			switch n := seen[msgID(s, k)]; {
+			case n == 0:
+				missing++
+				if first < 0 {
+					first = msgID(s, k)
+				}
+			case n > 1:
+				dup++
+			}
+		}
+	}
+	c.Count("mc_burst_messages_checked", int64(nSenders*perSender))
+	if missing > 0 || dup > 0 {
+		c.Violation("mc:lost", fmt.Sprintf("%d messages were sent (Send returned nil) by %d senders while one listener callback was busy for 2 s, all before the sentinel that arrived: %d never arrived, %d arrived more than once (first missing: sender %d message %d)", nSenders*perSender, nSenders, missing, dup, first>>28, first&(1<<28-1)), desc, nSenders*perSender, nSenders*perSender-missing)
+	}
+}
